@@ -214,6 +214,21 @@ def run(ctx):
                     ok = "Metadata::is_file(meta)" in g and "Metadata::len(meta) Gt 0" in g.replace("> 0", "Gt 0") and "&&" in g and thir.pat_str(arm["p"]).startswith("Ok")
                     ctx.require(ok, "R14.1", "some-needs-regular-nonempty", "find_file yields Some only for a regular file of non-zero length", ff.loc(arm["l"]),
                                 detail=g, fail="find_file reports a path as an ignore file without requiring a regular, non-empty file (guard: %s)" % (g or "none"))
+            if n_some == 0:
+                # the other spelling: the metadata is bound first (`let meta = match .. { Ok(meta) => meta, .. => return .. }`) and the test is an `if`
+                from ..throttle import implies as _imp14
+                bad14 = []
+                for q in paths_of(ff):
+                    if "Some{" not in (q.val or ""):
+                        continue
+                    n_some += 1
+                    okm = any(e[0] == "arm" and "metadata(path)" in e[1] and str(e[2][0]).startswith("Ok") for e in q.ev)
+                    isf = any(e[0] == "branch" and _imp14(e[1], e[2], "Metadata::is_file(meta)", True) for e in q.ev)
+                    nonempty = any(e[0] == "branch" and _imp14(e[1], e[2], "Metadata::len(meta) Gt 0", True) for e in q.ev)
+                    if not (okm and isf and nonempty and q.val == "Ok{0: Some{0: path}}"):
+                        bad14.append(pathx.show_events(q.ev)[-200:])
+                ctx.require(not bad14, "R14.1", "some-needs-regular-nonempty", "find_file yields Some only for a regular file of non-zero length", ff.loc(ff.line),
+                            detail="; ".join(bad14)[:300], fail="find_file reports a path as an ignore file without requiring a regular, non-empty file")
             ctx.floor("R14.1", "Some(..) arms in find_file", n_some, 1)
         df = body_of(ctx, "R14.1", D + "::discover_file")
         for p in paths_of(df):
@@ -247,14 +262,17 @@ def run(ctx):
                         iter_classes[classify_iter(it)] = it
             if p.out == "val" and (p.val or "").startswith("Find{0: ^path}"):
                 n_find += 1
+                # the explicit-watch relation R = `no explicit watches, or some watch is related to the path`, in whichever polarity it is tested:
+                # the branch taken must hold exactly when R does
+                from ..throttle import eval_cond as _ev14
+                E14, A14 = "HashSet::is_empty(^self.to_explicitly_watch)", "Iterator::any(HashSet::iter(^self.to_explicitly_watch), closure)"
+                rel_ok = bool(wt) and all((_ev14(wt[0][1], {E14: e_, A14: a_}) is bool(wt[0][2])) == (e_ or a_) for e_ in (True, False) for a_ in (True, False))
                 ok = bool(ms) and implies(ms[0][1], ms[0][2], "DirTourist::must_skip(^self, ^path)", False) and \
-                    bool(cd) and implies(cd[0][1], cd[0][2], "IgnoreFilter::check_dir(^self.filter, ^path)", True) and \
-                    bool(wt) and wt[0][2] is True and not wt[0][1].startswith("Not ")
+                    bool(cd) and implies(cd[0][1], cd[0][2], "IgnoreFilter::check_dir(^self.filter, ^path)", True) and rel_ok
                 ctx.require(ok, "R14.2", "find-gates", "Find is reached only past the skip list, check_dir and the explicit-watch relation", loc,
                             fail="visit_path can return a directory for ignore-file lookup without passing the skip list, the ignore filter or the explicit-watch relation")
                 if wt:
-                    ctx.require(wt[0][1] == "(HashSet::is_empty(^self.to_explicitly_watch) || Iterator::any(HashSet::iter(^self.to_explicitly_watch), closure))",
-                                "R14.2", "watch-relation-shape", "the watch relation is `no explicit watches, or any watch related to the path`", loc, detail=wt[0][1])
+                    ctx.require(rel_ok, "R14.2", "watch-relation-shape", "the watch relation is `no explicit watches, or any watch related to the path`", loc, detail=wt[0][1])
             elif p.out == "ret" and p.val == "Skip":
                 pass
             else:
